@@ -79,6 +79,7 @@ func exprString(fset *token.FileSet, e ast.Expr) string {
 
 func rewriteChans(fset *token.FileSet, f *ast.File, lenChans map[string]bool) bool {
 	usesChan := false
+	selN := 0
 	chanElem := map[*ast.StarExpr]ast.Expr{}
 	bad := func(pos token.Pos, msg string) {
 		die("chan rewrite: %s: %s", fset.Position(pos), msg)
@@ -142,6 +143,7 @@ func rewriteChans(fset *token.FileSet, f *ast.File, lenChans map[string]bool) bo
 		case *ast.SelectStmt:
 			usesChan = true
 			var cases []ast.Expr
+			var pre []ast.Stmt
 			sw := &ast.SwitchStmt{Body: &ast.BlockStmt{}}
 			for i, cl := range x.Body.List {
 				cc := cl.(*ast.CommClause)
@@ -161,12 +163,34 @@ func rewriteChans(fset *token.FileSet, f *ast.File, lenChans map[string]bool) bo
 						ce = call(sel("vchan", "OnRecv"), se.X)
 					}
 				case *ast.AssignStmt:
-					if comm.Tok != token.ASSIGN {
-						bad(comm.Pos(), "select receive with := is outside the supported subset")
-					}
 					c := comm.Rhs[0].(*ast.CallExpr)
 					se := c.Fun.(*ast.SelectorExpr)
 					lhs := comm.Lhs
+					if comm.Tok == token.DEFINE {
+						// case v[, ok] := <-c:  ->  _vN := vchan.NewVar(c) before the switch, and
+						// `v[, ok] := *_vN[, *_okN]` as first statement of the clause body
+						selN++
+						vn := ast.NewIdent(fmt.Sprintf("_selv%d", selN))
+						pre = append(pre, &ast.AssignStmt{Lhs: []ast.Expr{vn}, Tok: token.DEFINE, Rhs: []ast.Expr{call(sel("vchan", "NewVar"), se.X)}})
+						args := []ast.Expr{se.X, vn}
+						vals := []ast.Expr{&ast.StarExpr{X: vn}}
+						if len(lhs) == 2 {
+							on := ast.NewIdent(fmt.Sprintf("_selok%d", selN))
+							pre = append(pre, &ast.AssignStmt{Lhs: []ast.Expr{on}, Tok: token.DEFINE, Rhs: []ast.Expr{call(ast.NewIdent("new"), ast.NewIdent("bool"))}})
+							args = append(args, on)
+							vals = append(vals, &ast.StarExpr{X: on})
+						} else {
+							args = append(args, ast.NewIdent("nil"))
+						}
+						ce = call(sel("vchan", "OnRecvInto"), args...)
+						var use []ast.Stmt
+						use = append(use, &ast.AssignStmt{Lhs: lhs, Tok: token.DEFINE, Rhs: vals})
+						for _, l := range lhs {
+							use = append(use, &ast.AssignStmt{Lhs: []ast.Expr{ast.NewIdent("_")}, Tok: token.ASSIGN, Rhs: []ast.Expr{l}})
+						}
+						cc.Body = append(use, cc.Body...)
+						break
+					}
 					args := []ast.Expr{se.X, &ast.UnaryExpr{Op: token.AND, X: lhs[0]}}
 					if len(lhs) == 2 {
 						args = append(args, &ast.UnaryExpr{Op: token.AND, X: lhs[1]})
@@ -184,6 +208,9 @@ func rewriteChans(fset *token.FileSet, f *ast.File, lenChans map[string]bool) bo
 				})
 			}
 			sw.Tag = call(sel("vchan", "Select"), cases...)
+			if len(pre) > 0 {
+				return &ast.BlockStmt{List: append(pre, sw)}
+			}
 			return sw
 		}
 		return s
